@@ -168,22 +168,28 @@ func viewDeleteIn(view map[string]string, idx []string) {
 
 // ---- quiescence ----
 
-var suFrames = []string{"subscribe.(*Server)", "main.(*suComp)", "main.(*suStream)"}
+var suFrames = []string{"subscribe.(*Server)", "main.(*suStream)", "main.(*suComp).Run.func"}
 
 // allBlocked reports whether every goroutine running server code for a subscriber is parked in
 // one of the places it can only leave through an external event.
 func allBlocked() bool {
 	buf := make([]byte, 1<<20)
 	n := runtime.Stack(buf, true)
-	for _, g := range strings.Split(string(buf[:n]), "\n\n") {
+	for i, g := range strings.Split(string(buf[:n]), "\n\n") {
+		if i == 0 {
+			continue // the goroutine asking (the op runner, or server code inside a schedule hook)
+		}
 		rel := false
 		for _, f := range suFrames {
 			if strings.Contains(g, f) {
 				rel = true
 			}
 		}
-		if !rel || strings.Contains(g, "main.allBlocked") {
+		if !rel {
 			continue
+		}
+		if strings.Contains(g, "main.quiesce") {
+			return false // server code inside a schedule hook, itself waiting for the others
 		}
 		hdr := g[:strings.IndexByte(g+"\n", '\n')]
 		ok := strings.Contains(hdr, "[select") || strings.Contains(hdr, "[chan receive")
@@ -410,8 +416,25 @@ func (c *suComp) Run(args []string) string {
 			return out + " not-quiescent"
 		}
 		return out
-	case "sub":
+	case "sub", "subw":
 		id := decStr(args[1])
+		ran := false
+		if args[0] == "subw" {
+			point := "subscribe.walk." + args[4]
+			caArgs := args[5:]
+			armed := true
+			subscribe.VerifHook = func(name string) {
+				if armed && name == point {
+					armed = false
+					ran = true
+					if strings.HasSuffix(point, ".end") {
+						quiesce() // let the sender drain what the walk queued
+					}
+					c.ca.Run(caArgs)
+				}
+			}
+			defer func() { subscribe.VerifHook = nil }()
+		}
 		s := &suSub{id: id, reqs: make(chan *pb.SubscribeRequest, 4), view: map[string]string{}}
 		caller := &suCaller{allowed: map[string]bool{}}
 		switch {
@@ -458,6 +481,12 @@ func (c *suComp) Run(args []string) string {
 		if !quiesce() {
 			return s.status() + " not-quiescent"
 		}
+		if args[0] == "subw" {
+			if ran {
+				return s.status() + " ran=1"
+			}
+			return s.status() + " ran=0"
+		}
 		return s.status()
 	}
 	s := c.subs[decStr(args[1])]
@@ -468,8 +497,11 @@ func (c *suComp) Run(args []string) string {
 	case "drain":
 		return s.drain()
 	case "poll":
-		if !s.isDone() && !s.reqsClosed {
-			s.reqs <- &pb.SubscribeRequest{Request: &pb.SubscribeRequest_Poll{Poll: &pb.Poll{}}}
+		if !s.isDone() && !s.reqsClosed && s.mode == "p" {
+			select {
+			case s.reqs <- &pb.SubscribeRequest{Request: &pb.SubscribeRequest_Poll{Poll: &pb.Poll{}}}:
+			default:
+			}
 		}
 		quiesce()
 		return "ok"
@@ -736,7 +768,20 @@ func (s *suGen) genSub(id string) {
 	if r.Intn(40) == 0 {
 		req = "eof"
 	}
-	s.emit("sub %s %s %s", encStr(id), acl, req)
+	if r.Intn(3) == 0 && req != "eof" {
+		// place a cache write in the registration/walk window of this subscription
+		saved := s.g.seq
+		s.g.seq = nil
+		for len(s.g.seq) == 0 || !strings.HasPrefix(s.g.seq[0], "upd ") && !strings.HasPrefix(s.g.seq[0], "reset ") {
+			s.g.seq = nil
+			s.g.step()
+		}
+		op := s.g.seq[0]
+		s.g.seq = saved
+		s.emit("subw %s %s %s %s %s", encStr(id), acl, req, []string{"start", "end"}[r.Intn(2)], op)
+	} else {
+		s.emit("sub %s %s %s", encStr(id), acl, req)
+	}
 	s.ids = append(s.ids, id)
 }
 
